@@ -114,3 +114,17 @@ def is_subscriber(node):
     return id(node) in _CB
   return False
 
+
+
+@pg.members([('v', pg.typing.Int(default=0))])
+class Leafy(pg.Object):
+  """An object class unrelated to Node/Typed."""
+
+
+@pg.members([
+    ('x', pg.typing.Any(default=None)),
+    ('items', pg.typing.List(pg.typing.Any(), default=[])),
+])
+class SealedByDefault(pg.Object):
+  """A class whose instances are sealed unless explicitly unsealed."""
+  allow_symbolic_mutation = False
